@@ -198,7 +198,16 @@ def check_case(ctx, case, record=True, only=None):
         if case["bad"]:
             plans.append((None, "serialisation"))
         if only is not None:
-            plans = [tuple(only)]
+            # a saved case names one (operation index, fault).  If this implementation's operation stream no longer
+            # has that index (an implementation is free to use more or fewer file operations), the saved case stands
+            # for "this fault at any operation": replay them all rather than report a harness mismatch.
+            only = tuple(only)
+            if only in plans or only[1] in ("neighbour",):
+                plans = [only]
+            else:
+                plans = [pl for pl in plans if pl[1] == only[1]]
+                if only[1] == "neighbour":
+                    plans = []
         for n, (k, fk) in enumerate(plans):
             d = os.path.join(root, f"t{n}")
             os.mkdir(d)
@@ -206,7 +215,7 @@ def check_case(ctx, case, record=True, only=None):
             shutil.rmtree(d, ignore_errors=True)
         # another store writes a neighbouring file of the same directory between two operations of this write
         if ok and only is None or (only is not None and only[1] == "neighbour"):
-            for k in ([only[0]] if only is not None else range(nops)):
+            for k in ([only[0]] if only is not None and only[0] is not None and only[0] < nops else range(nops)):
                 d = os.path.join(root, f"n{k}")
                 os.mkdir(d)
                 run_neighbour(ctx, case, d, new, prev_bytes, new_bytes, k, nops, oplog, record)
@@ -271,15 +280,15 @@ def run_one(ctx, case, d, new, prev_bytes, new_bytes, k, fk, nops, oplog, record
             ctx.case(key_case, case["has_prev"], [f"kind:{case['kind']}", "fault:bad_encoding"])
         try:
             write(case["new"])
-        except LookupError:
-            pass
+        except Exception:
+            pass  # (LookupError as it stands; the statement only speaks of "fails by exception")
         else:
-            ctx.violation(key_case, tag + "the write did not raise LookupError")
+            ctx.violation(key_case, tag + "the write did not raise although the encoding does not exist")
         if file_bytes(path) != prev_bytes:
             ctx.violation(key_case, tag + f"the target changed: {file_bytes(path)!r:.80}")
         left = staging_entries(d, keep=(case.get("name", "value.dat"),))
         if left:
-            ctx.violation(key_case, tag + f"write failed with LookupError but left entries behind: {left}")
+            ctx.violation(key_case, tag + f"write failed (nonexistent encoding) but left entries behind: {left}")
         return
     path, write, read = make_writer(case, d)
     if case["has_prev"]:
@@ -342,16 +351,30 @@ def run_one(ctx, case, d, new, prev_bytes, new_bytes, k, fk, nops, oplog, record
                           key="staging-left-when-replace-raises" if opname == "replace" else None)
     if fk == "exit":
         # a staging file left by a killed process must not disturb later writes / reads
-        good = case["new"]
-        try:
-            write(good)
-            back = read()
-        except BaseException as e:
-            ctx.violation(key_case, tag + f"after the process was killed, the next write/read failed: {e!r} (entries {os.listdir(d)})")
+        # (first a value whose serialised form is shorter than whatever the dead writer left, then the new value)
         from vlib.util import deep_eq
-        why = deep_eq(good, back)
-        if why:
-            ctx.violation(key_case, tag + f"after the process was killed, the next write/read returned {back!r:.100}: {why}")
+        shortest = {"json": [], "pickle": None, "text": "", "binary": b"", "touch": None}.get(case["kind"], case["new"])
+        for good in (shortest, case["new"]):
+            try:
+                write(good)
+                back = read()
+            except BaseException as e:
+                ctx.violation(key_case, tag + f"after the process was killed, the next write({good!r:.60})/read failed: {e!r} "
+                                              f"(entries {os.listdir(d)})")
+            why = deep_eq(good, back)
+            if why:
+                ctx.violation(key_case, tag + f"after the process was killed, the next write({good!r:.60})/read returned {back!r:.100}: {why}")
+            refd = d + ".ref"
+            os.mkdir(refd)
+            try:
+                rp, rw, _ = make_writer(case, refd)
+                rw(good)
+                want = file_bytes(rp)
+            finally:
+                shutil.rmtree(refd, ignore_errors=True)
+            if file_bytes(path) != want:
+                ctx.violation(key_case, tag + f"after the process was killed, the next write({good!r:.60}) left {file_bytes(path)!r:.100} "
+                                              f"in the target; written into an empty directory the same value gives {want!r:.100}")
 
 
 def run_shard(ctx):
